@@ -1,14 +1,22 @@
-#!/bin/sh
+#!/bin/bash
 # usage: seedtest.sh <seed dir name> <property id>...
-# Applies a seeded mutation to /repo, runs the quick checks, and reverts.
-# The patch is reverted with `git apply -R` (never `checkout -- .`, which would also throw away uncommitted contract edits).
-# The evidence files are saved and restored (evidence must describe the unchanged tree).
+# Runs the quick checks against a seeded change WITHOUT touching /repo or /verif/evidence:
+# the change is applied to a scratch worktree of /repo's HEAD plus /repo's uncommitted
+# contract files, and govc is pointed at it (VERIF_REPO) with a scratch output root
+# (VERIF_ROOT: props, library contracts and known findings are those of /verif).
 d=/verif/seeded/$1; shift
-tmp=$(mktemp -d)
-cp -r /verif/evidence "$tmp/evidence"
-git -C /repo apply "$d/patch.diff" || { rm -rf "$tmp"; exit 3; }
+id=$$
+wt=/tmp/seedrepo_$id
+root=/tmp/seedroot_$id
+trap 'git -C /repo worktree remove --force $wt >/dev/null 2>&1; rm -rf $wt $root' EXIT
+git -C /repo worktree add --detach $wt HEAD >/dev/null 2>&1 || exit 3
+# carry over uncommitted contract edits (comment-only files)
+(cd /repo && git diff -- '*verif_contracts.go') | (cd $wt && git apply --allow-empty 2>/dev/null)
+git -C $wt apply "$d/patch.diff" || exit 3
+mkdir -p $root
+ln -s /verif/props.json $root/props.json
+ln -s /verif/contracts $root/contracts
+ln -s /verif/known_findings.txt $root/known_findings.txt
 for p in "$@"; do
-  (cd /verif && bin/govc check -property $p -tier quick | grep -v "^property" | cut -c1-220 | head -8; echo "  -> $p done")
+  (cd /verif && VERIF_REPO=$wt VERIF_ROOT=$root bin/govc check -property $p -tier quick | grep -v "^property" | sed "s|$root|/verif|g; s|$wt|/repo|g" | cut -c1-220 | head -8; echo "  -> $p done")
 done
-git -C /repo apply -R "$d/patch.diff" || echo "WARNING: could not revert $d/patch.diff"
-rm -rf /verif/evidence && cp -r "$tmp/evidence" /verif/evidence && rm -rf "$tmp"
